@@ -60,6 +60,20 @@ def main(tier, seed):
     icases, _ = c07.s_part(ck, tier, rng)
     iterms = [slevel.render_sim_case(c["cfg"], c["devs"], (1, 1), 0, [], 1_300_000_003, c["run"]) for c in icases]
     ibad = run_shards(PID + "_i", sprops.HEADER, "sim_case", "oracle_c04", iterms, shard_size=60)
+    # interrupts published before a late scheduler has come up, at non-zero initial times: replayed during its set-up and
+    # stamped before the initial tick -- the tick they cause must not lie before the initial time
+    from props import c12
+    ecases, eterms = [], []
+    for cfg, devs in c12.SMALL:
+        for d in [c for (c, k) in cfg[1]["order"] if k == "dev"]:
+            for sd in (2, 5):
+                for init in (3_000_000, 5_000_000_000):
+                    r = slevel.run_internal(cfg, devs, (1, 1), init, [], 1_300_000_003, delays={"sched": sd}, early=(1, d))
+                    ecases.append(dict(cfg=cfg, devs=devs, initial=init, delays={"sched": sd}, early=(1, d), run=r))
+                    eterms.append(slevel.render_sim_case(cfg, devs, (1, 1), init, [], 1_300_000_003, r, pre=[d]))
+    ebad = run_shards(PID + "_e", sprops.HEADER, "sim_case", "oracle_c04", eterms, shard_size=12)
+    ck.evaluations += len(ecases)
+    ck.coverage["early_interrupt_runs_at_non_zero_initial_time"] = len(ecases)
     ck.rule = ("(a) real MasterScheduler driven message by message on virtual time by random component-playing scripts (answers in "
                "flight with real-time costs, equal wakeup times, interrupts while a tick runs, malformed answers); (b) whole nested "
                "simulations (corpus + seeded random to depth 3) with callbacks and interrupts; non-trivial = script with a mid-tick "
@@ -93,6 +107,14 @@ def main(tier, seed):
                 ck.report(REASONS[code], f"interrupt of device c{c['device']} injected at loop step {c['step']} ({c['name']}): {REASONS[code]}",
                           dict(kind="injection", cfg={str(k): v for k, v in c["cfg"].items()}, devs={str(k): v for k, v in c["devs"].items()},
                                device=c["device"], step=c["step"], inj=c["inj"], ticklog=c["run"]["ticklog"][-12:], codes=ibad[i]))
+    for i in sorted(ebad):
+        for code in ebad[i]:
+            if code in prop and code not in done:
+                done.add(code)
+                c = ecases[i]
+                ck.report(REASONS[code], f"interrupt of device c{c['early'][1]} published before the scheduler came up, initial time {c['initial']}: {REASONS[code]}",
+                          dict(kind="early", cfg={str(k): v for k, v in c["cfg"].items()}, devs={str(k): v for k, v in c["devs"].items()},
+                               initial=c["initial"], delays=c["delays"], early=list(c["early"]), ticklog=c["run"]["ticklog"][:12], codes=ebad[i]))
     for i in sorted(sbad):
         for code in sbad[i]:
             if code in prop and code not in done:
@@ -132,6 +154,16 @@ def replay(rp):
         print("schedule:", pol, bseed, "errors:", errs[:2], "codes:", bad.get(0, []))
         print("updates (device, time):", [(c, t) for (c, t, _) in r["trace"]][:60])
         return 1 if bad or errs else 0
+    if rp.get("kind") == "early":
+        cfg = {int(k): dict(order=[(c, (kk if kk == "dev" else int(kk))) for c, kk in v["order"]], conns=[tuple(x) for x in v["conns"]]) for k, v in rp["cfg"].items()}
+        devs = {int(k): tuple(v) for k, v in rp["devs"].items()}
+        early = tuple(rp["early"])
+        r = slevel.run_internal(cfg, devs, (1, 1), rp["initial"], [], 1_300_000_003, delays={"sched": rp["delays"]["sched"]}, early=early)
+        bad = run_shards("replay", sprops.HEADER, "sim_case", "oracle_c04",
+                         [slevel.render_sim_case(cfg, devs, (1, 1), rp["initial"], [], 1_300_000_003, r, pre=[early[1]])])
+        print("early interrupt", early, "initial", rp["initial"], "tick log:", r["ticklog"][:12])
+        print("codes:", bad.get(0, []))
+        return 1 if bad else 0
     if rp.get("kind") == "injection":
         cfg = {int(k): dict(order=[(c, kk) for c, kk in v["order"]], conns=[tuple(x) for x in v["conns"]]) for k, v in rp["cfg"].items()}
         devs = {int(k): tuple(v) for k, v in rp["devs"].items()}
